@@ -265,6 +265,7 @@ func c04UserClose(r *vfRun) {
 	tag := sc.Seed
 	srv.files["/a"] = vfFill(tag^1, 0, int(sc.cfg("sizeA", 10)))
 	srv.addDir("/dir", "e1", "e2", "e3", "e4", "e5")
+	srv.hangupEarly = true
 	vfClientSites(sim, sc.cfg("sites", 7))
 	P, M := int(sc.cfg("P", 4)), int(sc.cfg("M", 2))
 	c, err := vfStartClient(sim, srv.c2s, srv.s2c, MaxPacketUnchecked(P), MaxConcurrentRequestsPerFile(M),
